@@ -1,6 +1,6 @@
 """Property -> rules table. Each rule callable: (prog, tier, repo) -> [RuleResult]."""
 from .rules import traversal_instances as TI
-from .rules import gate, lookup_unwrap, heap, witness, incremental, optimizer, const_arith, shape
+from .rules import gate, lookup_unwrap, heap, witness, incremental, optimizer, const_arith, shape, backend
 
 PROPERTIES = {}
 
@@ -109,7 +109,16 @@ prop('C03', COMMON +
      'Clause "compilation finishes without crashing": CONST-ARITH (no panicking arithmetic on constants of the compiled '
      'program anywhere in parser/checker/compiler/optimizer; taint from integer-literal payloads to Assert terminators), '
      'SHAPE-PRODUCER (the parser never constructs a raw MethodAccess node and every Tuple node it builds is dominated by '
-     'truncate(16) and by a test excluding the one-element case - the shapes the checker panics on). Does not decide '
+     'truncate(16) and by a test excluding the one-element case - the shapes the checker panics on), TS-SPLICE (no '
+     'unsanitised string content between the backticks of an emitted template literal). Does not decide '
      'type soundness of the checker or validity of the emitted module.',
-     [const_arith.run, shape.run_shape],
+     [const_arith.run, shape.run_shape, backend.run_ts_splice],
      ['A-05.1: parenthesised lists reaching a Tuple construction are non-empty (the first element is parsed before)'])
+
+prop('C04', COMMON +
+     'BACKEND-OP-TABLE: three tables are read out of MIR discriminant switches - operator -> wasm mnemonic (wasm printer), '
+     'operator -> JS symbol (BinaryOperator::as_str) and operator -> JS wrapper calls (LIR TypeScript printer) - and each '
+     'row is checked against a semantic equivalence table of JS forms and i32 opcodes (one reason per row). TS-SPLICE: '
+     'non-constant text pushed between the backticks of a template literal must come through a sanitising callee. Does not '
+     'decide agreement of the two runtime libraries (libsam.wat vs the TS prolog).',
+     [backend.run_op_table, backend.run_ts_splice])
